@@ -101,7 +101,7 @@ def get_param_targets(
     actual_targets = param_to_consumers.get(param, [])
     if not actual_targets:
         for node_id, attrs in flat_graph.nodes(data=True):
-            if param in attrs.get("inputs", ()):
+            if param in attrs.get("inputs", ()) and not attrs.get("hide", False):
                 return [get_root_ancestor(node_id, flat_graph)]
     return actual_targets
 
